@@ -180,9 +180,9 @@ class Identifier(Node):
         returns:
             str (CSS)
         """
-        name = ',$$'.join(''.join(p).strip() for p in self.parsed)
-        name = re.sub(r'\?(.)\?',
-                      lambda m: fills['ws'] + m.group(1) + fills['ws'], name)
-        name = name.replace('$$', fills['nl'])
+        name = (',' + fills['nl']).join(
+            re.sub(r'\?(.)\?',
+                   lambda m: fills['ws'] + m.group(1) + fills['ws'],
+                   ''.join(p).strip()) for p in self.parsed)
         # collapse double blanks, but leave attribute selectors ([...]) as written
         return re.sub(r'(\[[^\]]*\])|  ', lambda m: m.group(1) or ' ', name)
